@@ -13,6 +13,12 @@ checks = {
  "C01": (MC, "histbfs", "explicit-state BFS over event histories on the real implementation with a reference-ledger oracle",
    "Every history of chain events (12 block templates, reorgs of depth<=k with 4 branch patterns) and notification deliveries up to the stated depth is executed on the real follower code over a real chain database; in every reached state the queue is drained and all ledger queries are compared with a reference ledger and a consensus-library maturity oracle. Exhaustive within the bounds reported in the evidence.",
    "§5 C01"),
+ "C04": (MC, "histbfs", "explicit-state BFS over create/address/sign/export/import/restart/passphrase-change sequences across instances with an independent key-derivation oracle",
+   "Every sequence of wallet-identity operations up to the stated depth across up to three instances runs on the real keystore; ids, every address index, NewAddress results and signatures are compared with an independent BIP-39/BIP-32/script derivation and across instances.",
+   "§5 C04"),
+ "C05": (MC, "histbfs", "same state space as C04 with a wrong-passphrase family and a raw secret scan as oracle",
+   "In every state of the C04 space, before and after an unlock, every secret-requiring operation is tried with ~60 wrong passphrases (must be refused, change nothing, not lock out the right one) and the raw databases, exported keystores and error strings are scanned for every secret the harness derives from the mnemonic.",
+   "§5 C05"),
  "C09": (MC, "histbfs", "explicit-state BFS over relay/confirm/conflict/reorg histories on the real implementation with a reference pending-set model",
    "Every history of relayed transactions (wallet spend, incoming payment, child, conflict, duplicate), blocks that confirm them or their conflicts, reorganisations and deliveries up to the stated depth runs on the real follower; in every state the wallet's pending buckets, the read-back of each pending entry, the spent_by_unmined flag of every coin and two automatic-selection probes are compared with a reference pending model, together with the C01 ledger oracle.",
    "§5 C09"),
